@@ -511,21 +511,31 @@ class Interp:
         acc = []
         kv = NDict()
 
+        def run_body(scope):
+            if body[0] == "do":
+                self.ev(body[1], scope)
+            elif body[0] == "yield":
+                acc.append(self.ev(body[1], scope))
+                if body[2] == "first":
+                    raise _StopFold()    # `into first` is a short-circuiting fold (tests: short_circuiting_folds)
+            else:
+                key = self.ev(body[1], scope)
+                val = self.ev(body[2], scope)
+                if not isinstance(key, (int, str)):
+                    raise OpaqueReached()
+                kv.set(key, val)
+
         def rec(k, scope):
             if k == len(clauses):
                 self.tick()
-                if body[0] == "do":
-                    self.ev(body[1], scope)
-                elif body[0] == "yield":
-                    acc.append(self.ev(body[1], scope))
-                    if body[2] == "first":
-                        raise _StopFold()    # `into first` is a short-circuiting fold (tests: short_circuiting_folds)
-                else:
-                    key = self.ev(body[1], scope)
-                    val = self.ev(body[2], scope)
-                    if not isinstance(key, (int, str)):
-                        raise OpaqueReached()
-                    kv.set(key, val)
+                try:
+                    run_body(scope)
+                except ContinueEx as ce:
+                    # only a continue raised by the body itself ends the iteration; one raised while evaluating a later
+                    # clause's iterated expression, guard or declaration leaves the whole loop (evaluate_for catches
+                    # Continue(0) around the callback only)
+                    if ce.n > 0:
+                        raise
                 return
             c = clauses[k]
             if c[0] == "guard":
@@ -553,12 +563,7 @@ class Interp:
                         self.err()
                     inner.vars[c[1]] = idx
                     inner.vars[c[2]] = item
-                try:
-                    rec(k + 1, inner)
-                except ContinueEx as ce:
-                    if ce.n > 0:
-                        raise
-                    continue
+                rec(k + 1, inner)
 
         try:
             rec(0, env)
